@@ -266,6 +266,30 @@ class _Content:
                 raise aiohttp.ClientPayloadError('Response payload is not completed')
             yield c, True
 
+    async def readchunk(self):
+        """aiohttp's StreamReader.readchunk(): (data, end_of_http_chunk).  With chunked transfer encoding the end of
+        a chunk can arrive apart from its data - (b'', True) in the middle of the body; only (b'', False) is the end
+        of the body."""
+        sim = self.resp.sim
+        st = self.__dict__.setdefault('_rc', dict(i=0, pending_end=False))
+        if st['pending_end']:
+            st['pending_end'] = False
+            await asyncio.sleep(sim.ch.delay(0.0, self.resp.lat[1] / 4))
+            return b'', True
+        if st['i'] >= len(self.chunks):
+            return b'', False
+        n = st['i']
+        st['i'] += 1
+        await asyncio.sleep(sim.ch.delay(0.0, self.resp.lat[1] / 4))
+        if self.cut is not None and n == self.cut:
+            self.resp.net.inflight -= 1
+            self.resp.counted = False
+            raise aiohttp.ClientPayloadError('Response payload is not completed')
+        if sim.ch.chance(0.3):
+            st['pending_end'] = True
+            return self.chunks[n], False
+        return self.chunks[n], True
+
 
 class _Resp:
     def __init__(self, net, url, maker, is_rest, methods=()):
@@ -277,6 +301,7 @@ class _Resp:
         self.body = None
         self.content = None
         self.counted = False
+        self.status = 200
 
     async def __aenter__(self):
         net, sim = self.net, self.sim
@@ -306,10 +331,18 @@ class _Resp:
             self.headers = {'Content-Type': 'text/html'}
             self.reason = 'Internal Server Error'
             self.body = ' Work queue depth exceeded '
+            self.status = 500
             return self
         # the reply is computed from the daemon's state at the reply instant
         ctype, body = self.maker(fault)
         self.headers = {'Content-Type': ctype}
+        # HTTP status as bitcoind sets it: a single request answered with a JSON-RPC error comes with 500 (404 for an
+        # unknown method, 400 for an invalid request), a batch always with 200; an unknown REST object with 404
+        if isinstance(body, dict) and body.get('error'):
+            code = body['error'].get('code')
+            self.status = 404 if code == -32601 else 400 if code == -32600 else 500
+        elif self.is_rest and ctype != 'application/octet-stream':
+            self.status = 404
         if self.is_rest and ctype == 'application/octet-stream':
             n = sim.ch.choose(5) + 1
             sz = max(1, -(-len(body) // n))
